@@ -25,7 +25,7 @@ type C09Case struct {
 }
 
 func genC09(t *rapid.T) C09Case {
-	lim := tierLimits()
+	lim := genLimits(t)
 	c := C09Case{Rows: rapid.SampledFrom([]int{0, 0, 1, 2, 3, 4, 5, 7, 63, 63}).Draw(t, "rows")}
 	f := &model.Forest{}
 	if rapid.IntRange(0, 2).Draw(t, "fromroots") == 0 {
